@@ -660,7 +660,7 @@ Ltac start_run :=
   match goal with |- exists m', mon_run ?m ?E = _ /\ _ => eassert (Hrun : mon_run m E = Some _) end.
 Ltac start_run_in :=
   match goal with |- exists m', mon_run ?m ?E = _ /\ _ => eassert (Hrun : mon_run m E = Some _) end.
-Ltac sstep H := cbn [step repaired v_share_header v_clear_handles v_log_serial v_alias_buf app negb] in H.
+Ltac sstep H := cbn [step repaired v_share_header v_clear_handles v_log_serial v_alias_buf v_share_merged app negb] in H.
 Ltac conn_tst :=
   let i1 := fresh "i1" in let H := fresh "H" in
   intros i1 H;
@@ -1728,7 +1728,7 @@ Lemma step_acc_in s m c s' evs : J s m -> step repaired s c = Some (s', evs) ->
   forallb acc_in (acc_classes evs) = true.
 Proof.
   intros HJ H. pose proof (j_hdr _ _ HJ) as Hh.
-  destruct c; cbn [step repaired v_share_header v_clear_handles v_log_serial v_alias_buf] in H;
+  destruct c; cbn [step repaired v_share_header v_clear_handles v_log_serial v_alias_buf v_share_merged] in H;
     repeat match type of H with
            | context [if ?b then _ else _] => destruct b
            | context [match ?x with _ => _ end] => destruct x eqn:?
